@@ -10,7 +10,7 @@ import (
 	"hzcheck/core"
 )
 
-func init() { register("C20", c20Ops, c20NoPanic, c20Fixpoint) }
+func init() { register("C20", c20Ops, c20NoPanic, c20Fixpoint, c20Sorted) }
 
 const relTagexpr = "internal/tagexpr"
 
@@ -179,39 +179,81 @@ func c20Ops(e *Env) {
 				})
 				why = "!= is not computed as the negation of the == node's Run"
 			case token.LAND, token.LOR:
-				// for over both operands; if [!]FakeBool(...) { return X }; return !X
-				inner, final, negated, found := "", "", false, false
-				ast.Inspect(rf.Decl.Body, func(n ast.Node) bool {
-					if is, ok := n.(*ast.IfStmt); ok && !found {
-						cond := unparen(is.Cond)
-						if u, ok := cond.(*ast.UnaryExpr); ok && u.Op == token.NOT {
-							negated = true
-							cond = unparen(u.X)
+				// the operands are tested left, then right: either one loop over
+				// [2]ExprNode{left, right} with `if [!]FakeBool(e.Run(…)) { return X }`, or two such
+				// ifs in sequence naming leftOperand and rightOperand; the function ends with `return !X`
+				type test struct {
+					operand string
+					negated bool
+					ret     string
+				}
+				var tests []test
+				fakeBoolIf := func(is *ast.IfStmt) (arg ast.Expr, negated bool, ret string, ok bool) {
+					cond := unparen(is.Cond)
+					if u, isU := cond.(*ast.UnaryExpr); isU && u.Op == token.NOT {
+						negated = true
+						cond = unparen(u.X)
+					}
+					c, isC := cond.(*ast.CallExpr)
+					if !isC || len(c.Args) != 1 || len(is.Body.List) == 0 {
+						return
+					}
+					if f := calleeOf(rinfo, c); f == nil || f.Name() != "FakeBool" {
+						return
+					}
+					rs, isR := is.Body.List[len(is.Body.List)-1].(*ast.ReturnStmt)
+					if !isR || len(rs.Results) != 1 {
+						return
+					}
+					return c.Args[0], negated, types.ExprString(rs.Results[0]), true
+				}
+				operandOf := func(x ast.Expr) string {
+					name := ""
+					ast.Inspect(x, func(n ast.Node) bool {
+						if se, ok := n.(*ast.SelectorExpr); ok && (se.Sel.Name == "leftOperand" || se.Sel.Name == "rightOperand") && name == "" {
+							name = se.Sel.Name
 						}
-						if c, ok := cond.(*ast.CallExpr); ok {
-							if f := calleeOf(rinfo, c); f != nil && f.Name() == "FakeBool" {
-								found = true
-								if rs, ok := is.Body.List[len(is.Body.List)-1].(*ast.ReturnStmt); ok && len(rs.Results) == 1 {
-									inner = types.ExprString(rs.Results[0])
+						return true
+					})
+					return name
+				}
+				for _, st := range rf.Decl.Body.List {
+					switch x := st.(type) {
+					case *ast.RangeStmt:
+						cl, isLit := unparen(x.X).(*ast.CompositeLit)
+						if !isLit {
+							continue
+						}
+						for _, bs := range x.Body.List {
+							if is, ok := bs.(*ast.IfStmt); ok {
+								if _, neg, ret, ok := fakeBoolIf(is); ok {
+									for _, el := range cl.Elts {
+										tests = append(tests, test{operandOf(el), neg, ret})
+									}
 								}
 							}
 						}
+					case *ast.IfStmt:
+						if arg, neg, ret, ok := fakeBoolIf(x); ok {
+							tests = append(tests, test{operandOf(arg), neg, ret})
+						}
 					}
-					return true
-				})
+				}
+				final := ""
 				if rs, ok := rf.Decl.Body.List[len(rf.Decl.Body.List)-1].(*ast.ReturnStmt); ok && len(rs.Results) == 1 {
 					final = types.ExprString(rs.Results[0])
 				}
-				bothOperands := false
-				ast.Inspect(rf.Decl.Body, func(n ast.Node) bool {
-					if cl, ok := n.(*ast.CompositeLit); ok && len(cl.Elts) == 2 {
-						a, b := types.ExprString(cl.Elts[0]), types.ExprString(cl.Elts[1])
-						if len(a) > 11 && len(b) > 12 && a[len(a)-11:] == "leftOperand" && b[len(b)-12:] == "rightOperand" {
-							bothOperands = true
+				found := len(tests) > 0
+				bothOperands := len(tests) == 2 && tests[0].operand == "leftOperand" && tests[1].operand == "rightOperand"
+				negated, inner := false, ""
+				if found {
+					negated, inner = tests[0].negated, tests[0].ret
+					for _, t := range tests {
+						if t.negated != negated || t.ret != inner {
+							found = false
 						}
 					}
-					return true
-				})
+				}
 				if spec.goOp == token.LAND {
 					runOK = found && negated && inner == "false" && final == "true" && bothOperands
 				} else {
